@@ -93,6 +93,47 @@ theorem C06_by_name_loses_columns :
     (describeAsRowtype [("A".toList, "INTEGER".toList), ("A".toList, "VARCHAR".toList)]).map (fun o => o.map fun e => e.2.type) = some [.fixed, .text] := by
   decide
 
+/-- the full statement over declared types: description reports the declared type code, precision and scale -/
+def C06_declared_Full : Prop := ∀ d, describedCore d = some (declaredCore d)
+
+/-- **Declared types**: for every declared Snowflake type outside the recorded finding region — in particular `NUMBER(p)` and
+    `NUMBER(p,s)` for ALL p, s (precision and scale are the declared ones, not 38/0), every integer / float / text spelling, and
+    `TIMESTAMP_NTZ(p)` for every p (always a plain TIMESTAMP, never an unmapped unit type) — the composition of the rewrites' type
+    mapping and `types.py` yields exactly the declared type code, precision and scale. -/
+theorem C06_declared_partial (d : Decl) (h : declFinding d = none) : describedCore d = some (declaredCore d) := by
+  have hts : (asColumnInfo "TIMESTAMP".toList).map ColumnInfo.core = some (SfType.timestamp_ntz, some 0, some 9) := by decide
+  have htn : (asColumnInfo "TIMESTAMP_NS".toList).map ColumnInfo.core = some (SfType.timestamp_ntz, some 0, some 9) := by decide
+  have hbi : (asColumnInfo "BIGINT".toList).map ColumnInfo.core = some (SfType.fixed, some 38, some 0) := by decide
+  cases d with
+  | number p s =>
+    cases p with
+    | none => cases s <;> exact hbi
+    | some p =>
+      show (asColumnInfo (renderDecimal p (s.getD 0))).map ColumnInfo.core = some (declaredCore (.number (some p) s))
+      rw [(C06_decimal_parse p (s.getD 0)).2]
+      simp [ColumnInfo.core, declaredCore]
+  | tsPlain p =>
+    cases p with
+    | none => exact hts
+    | some p =>
+      simp only [declFinding] at h
+      have h3 : ¬ p ≤ 3 := by intro hp; simp [hp] at h
+      have h0 : p ≠ 0 := by omega
+      by_cases h6 : p ≤ 6
+      · have e : toDuck (.tsPlain (some p)) = "TIMESTAMP".toList := by
+          show (if p = 0 then _ else if p ≤ 3 then _ else if p ≤ 6 then _ else _) = _; rw [if_neg h0, if_neg h3, if_pos h6]
+        show (asColumnInfo (toDuck (.tsPlain (some p)))).map ColumnInfo.core = _
+        rw [e]; exact hts
+      · have e : toDuck (.tsPlain (some p)) = "TIMESTAMP_NS".toList := by
+          show (if p = 0 then _ else if p ≤ 3 then _ else if p ≤ 6 then _ else _) = _; rw [if_neg h0, if_neg h3, if_neg h6]
+        show (asColumnInfo (toDuck (.tsPlain (some p)))).map ColumnInfo.core = _
+        rw [e]; exact htn
+  | _ => decide
+
+/-- known finding `C06/type-unmapped`, declared-type side: `TIMESTAMP(3)` / `DATETIME(3)` become TIMESTAMP_MS and description raises. -/
+theorem finding_C06_declared_timestamp_precision : describedCore (.tsPlain (some 3)) = none ∧ ¬ C06_declared_Full :=
+  ⟨by decide, fun h => by have := h (.tsPlain (some 3)); revert this; decide⟩
+
 /-- the full "types agree with values" statement over everything DuckDB can hand back in this model -/
 def C06_agrees_Full : Prop :=
   ∀ t ci py, asColumnInfo t = some ci → pyOf t = some py → agrees ci py = true
